@@ -58,9 +58,31 @@ def run(ctx):
     corr.sample({'kind': muts[7][0], 'bytes': len(muts[7][1])})
     # read errors injected at arbitrary read calls, with short reads and Interrupted retries, on well-formed and malformed streams:
     # the model (Frag.run_frag) predicts outcome and consumed bytes; the oracle is no PANIC/ABORT/HANG
-    fs_streams = [synth.emit(synth.gen_wf(rng, nframes=rng.choice([0, 1, 3]))) for _ in range(60 if thorough else 15)] + [b for k, b in muts[:(200 if thorough else 40)] if b]
+    fs_streams = [synth.emit(synth.gen_wf(rng, nframes=rng.choice([0, 1, 3]))) for _ in range(60 if thorough else 15)] + [b for k, b in muts[:(400 if thorough else 60)] if b and len(b) <= 6000][:(200 if thorough else 40)]   # the fragment-level model counts in unary: small streams only
     impl3, _ = readsched_corr(ctx, corr, rng, fs_streams, 3, faults=True)
     for cid, res in impl3.items():
         if any(l.startswith(('PANIC', 'ABORT', 'HANG')) for l in (res or ['ABORT'])):
             corr.oracle_failures.append((cid, 'reader %s under an injected stream fault' % (res or ['ABORT'])[0], {'mode': 'readsched', 'case': cid}))
+    # a fault at EVERY read call of small replays, under every option set: the read must fail (never a game from partial reads)
+    small = [synth.emit(synth.gen_wf(rng, nframes=rng.choice([0, 1, 2]), gecko=0)) for _ in range(6 if thorough else 3)]
+    sweep = []
+    for i, b in enumerate(small):
+        for o in ['-', 's', 'h', 'sh']:
+            sweep.append(('n%d_%s' % (i, o.replace('-', 'n')), [b.hex(), o, ','.join(['g100000'] * 4000)]))
+    clean = core.run_parallel(R.run_pvh, 'readsched', sweep, n=8)
+    fcases = []
+    for cid, f in sweep:
+        d = {l.split('=', 1)[0]: l.split('=', 1)[1] for l in clean.get(cid, []) if '=' in l}
+        if (clean.get(cid) or ['?'])[0] != 'OK' or 'err.sched_left' not in d:
+            continue          # (skip_frames on an unfinished replay is an error anyway)
+        ncalls = 4000 - int(d['err.sched_left'])
+        for k in range(ncalls):
+            fcases.append(('%s_f%d' % (cid, k), [f[0], f[1], ','.join(['g100000'] * k + ['f'])]))
+    fres = core.run_parallel(R.run_pvh, 'readsched', fcases, n=16)
+    for cid, f in fcases:
+        corr.seen('faultsweep' + cid + f[0][:40]); corr.count('fault_at_every_read_call')
+        res = fres.get(cid) or ['ABORT']
+        if not res[0].startswith('ERR'):
+            corr.oracle_failures.append((cid, 'a read error injected at read call %s did not surface as an error: %s' % (cid.rsplit('_f', 1)[1], res[0]),
+                                         {'mode': 'readsched', 'fields': f, 'input_hex': f[0], 'opts': f[1], 'rerun': 'pvh readsched <file: x <input_hex> %s <sched>>' % f[1]}))
     return corr
